@@ -553,6 +553,7 @@ type LemmaInst struct {
 type AtCall struct {
 	Callee string
 	Clause *Clause
+	AtText string // apply-at: source text fragment that identifies the line before which the lemma is applied
 	Apply  bool // apply-at-call: Clause.E is lemmaName(args...); the lemma instance is assumed at the call
 }
 
@@ -849,6 +850,26 @@ func (cs *ContractSet) parseContractText(pkgPath, file string, lines []string, l
 					return err
 				}
 				cur.AtCalls = append(cur.AtCalls, &AtCall{Callee: callee, Clause: c})
+			case "apply-at":
+				// apply-at "<source text>" lemma(arg, ...): before the first instruction of the (unique) line
+				// of the function that contains the text, the lemma is instantiated with the values there
+				r := strings.TrimSpace(rest)
+				if !strings.HasPrefix(r, "\"") {
+					return fmt.Errorf("%s:%d: apply-at needs a quoted source fragment", file, line)
+				}
+				end := strings.Index(r[1:], "\"")
+				if end < 0 {
+					return fmt.Errorf("%s:%d: apply-at: unterminated fragment", file, line)
+				}
+				frag := r[1 : 1+end]
+				c, err := parseClause(strings.TrimSpace(r[end+2:]), file, line)
+				if err != nil {
+					return err
+				}
+				if _, ok := c.E.(*ECall); !ok {
+					return fmt.Errorf("%s:%d: apply-at needs lemma(args...)", file, line)
+				}
+				cur.AtCalls = append(cur.AtCalls, &AtCall{AtText: frag, Clause: c, Apply: true})
 			case "apply-at-call":
 				// apply-at-call <callee> lemma(arg, ...): just before each call of <callee>, the (separately
 				// proved) lemma is instantiated with the argument values of that program point
